@@ -752,6 +752,12 @@ func init() {
 // Must be called before establishing any connections.
 func EnableWeakCiphers() {
 	utlsSupportedCipherSuites = append(cipherSuites, []*cipherSuite{
+		// keep the legacy ChaCha20 code points registered by init()
+		{OLD_TLS_ECDHE_RSA_WITH_CHACHA20_POLY1305_SHA256, 32, 0, 12, ecdheRSAKA,
+			suiteECDHE | suiteTLS12, nil, nil, aeadChaCha20Poly1305},
+		{OLD_TLS_ECDHE_ECDSA_WITH_CHACHA20_POLY1305_SHA256, 32, 0, 12, ecdheECDSAKA,
+			suiteECDHE | suiteECSign | suiteTLS12, nil, nil, aeadChaCha20Poly1305},
+
 		{DISABLED_TLS_RSA_WITH_AES_256_CBC_SHA256, 32, 32, 16, rsaKA,
 			suiteTLS12, cipherAES, macSHA256, nil},
 
